@@ -187,3 +187,18 @@ func BadF44Stale() int {
 	r := again(&S{})
 	return r.v
 }
+
+// F45 (not-equal edge of two non-nil operands): a != b is always true here; no contract may be inferred
+func distinct(p *S) *S {
+	a, b := new(S), new(S)
+	if p == nil || a != b {
+		return nil
+	}
+	return p
+}
+
+// BadF45 dereferences distinct(non-nil), which is nil.
+func BadF45() int {
+	r := distinct(&S{})
+	return r.v
+}
